@@ -52,7 +52,7 @@ class A(Adapter):
             cfg("r2c3block", True, gen="random", rb=2, cb=3, rew="block"),
             cfg("r5c5", gen="random", rb=5, cb=5, rew="cell"),
             cfg("r3c3", gen="random", rb=3, cb=3, rew="cell"),
-            cfg("toyrot", gen="toyrot", rb=2, cb=2, rew="block"),
+            cfg("toyrot", c02=True, gen="toyrot", rb=2, cb=2, rew="block"),
             cfg("toynorot", gen="toynorot", rb=2, cb=2, rew="cell"),
             cfg("r3c2", gen="random", rb=3, cb=2, rew="block"),
         ]
